@@ -7,6 +7,7 @@ import (
 	"os"
 	"path/filepath"
 	"runtime/debug"
+	"strings"
 
 	"golang.org/x/image/ccitt"
 	"seehuhn.de/go/pdf"
@@ -100,8 +101,15 @@ func refTIFFRow(dec bool, colors, bpc, columns int, row []byte) []byte {
 	return refBytes(bits)
 }
 
-// refPredEncode: whole rows only.
+// refPredEncode: whole rows only.  The PNG predictors 10-14 use the declared filter type for every
+// row, 15 the per-row tags.
 func refPredEncode(p fbPred, tags []byte, data []byte) []byte {
+	return refPredEncodeTags(p, tags, data, false)
+}
+
+// refPredEncodeTags: with freeTags an encoder that chooses the PNG filter type per row (tags[i])
+// whatever value >= 10 /Predictor declares — a reader has to follow the tag byte of each row.
+func refPredEncodeTags(p fbPred, tags []byte, data []byte, freeTags bool) []byte {
 	if p.pred <= 1 {
 		return data
 	}
@@ -116,7 +124,7 @@ func refPredEncode(p fbPred, tags []byte, data []byte) []byte {
 			continue
 		}
 		ft := p.pred - 10
-		if p.pred == 15 {
+		if p.pred == 15 || freeTags {
 			ft = int(tags[i])
 		}
 		out = append(out, byte(ft))
@@ -185,6 +193,20 @@ func oracleForeignPredict(p fbPred, data []byte, r *Rand) (bool, string) {
 	if word != "ok" || !bytes.Equal(out, data) {
 		return false, fmt.Sprintf("library reads reference encoder output differently: in=%s enc=%s got=%s %s", fbTrunc(data), fbTrunc(ref), fbTrunc(out), word)
 	}
+	// PNG: an independent encoder that picks the filter type per row while declaring /Predictor 10..14
+	if p.pred >= 10 {
+		differs := false
+		for i := range tags {
+			if p.pred == 15 || int(tags[i]) != p.pred-10 {
+				differs = true
+			}
+		}
+		ref2 := refPredEncodeTags(p, tags, data, true)
+		out2, word2 := fbPredDecodeHook(p, ref2, r, r.Intn(4))
+		if differs && (word2 != "ok" || !bytes.Equal(out2, data)) {
+			return false, fmt.Sprintf("rowtag: /Predictor %d declared, rows tagged %v: the library does not follow the row tags: in=%s enc=%s got=%s %s", p.pred, tags[:min(len(tags), 6)], fbTrunc(data), fbTrunc(ref2), fbTrunc(out2), word2)
+		}
+	}
 	return true, ""
 }
 
@@ -248,7 +270,11 @@ func runFBForeign(c *Ctx) {
 		c.Case(fmt.Sprintf("fp:%s:%x", p, data), true)
 		c.Stat(fmt.Sprintf("foreign_pred_%d", p.pred))
 		if !ok {
-			c.Violate("fb-foreign-predict", "foreign-predict", fmt.Sprintf("predictor %v: %s", p, desc), fmt.Sprintf("%s %s", p, hexWire(data)))
+			key := "foreign-predict"
+			if strings.HasPrefix(desc, "rowtag:") {
+				key = "foreign-predict-rowtag"
+			}
+			c.Violate("fb-foreign-predict", key, fmt.Sprintf("predictor %v: %s", p, desc), fmt.Sprintf("%s %s", p, hexWire(data)))
 		}
 		// the Lean Spec codecs (compiled) on the same data: they must read the library's output and
 		// produce what the reference encoder produces (three-way agreement)
@@ -265,6 +291,7 @@ func runFBForeign(c *Ctx) {
 			c.Sample(fmt.Sprintf("foreign predictor %v %s", p, fbTrunc(data)))
 		}
 	}
+	runFBPredGrid(c, true)
 	for i := 0; i < n; i++ {
 		p := fbGenCC(r)
 		p.ignEOB = r.P(1, 3) // streams without EOFB / RTC (former class ccitt-noeob)
